@@ -51,7 +51,8 @@ RULE = ('case = one random search space (gen/spaces.random_space with floats, '
         'their documented preconditions), half random typed operator '
         'expressions of depth <= 4 over >> | & + - ^ * ** [] ~ with_prob '
         'if_true if_false Conditional Choice until_change for_each/flatten '
-        'global-state and plain callables; sometimes a full nsga2 / '
+        'global-state and plain callables; then `kpoint_extra` K-point '
+        'crossovers of the two most different parents; sometimes a full nsga2 / '
         'regularized_evolution run. Each application is run probed (every node '
         'wrapped, all monitors) and bare (as a user writes it) under different '
         'global RNG states. Non-trivial = the space has a multi-choice or a '
